@@ -155,7 +155,7 @@ def make_track(kind: str = "video", timescale: Optional[int] = None,
                encrypted: bool = False, iv_size: int = 8, kid: Union[str, bytes] = DEFAULT_KID,
                subsamples: Optional[bool] = None, saio_version: int = 0, saiz_default: bool = True,
                default_base_is_moof: bool = True, base: Optional[str] = None,
-               track_id: int = 1, start_number: int = 1, payload_size: int = 200, seed: int = 0,
+               track_id: int = 1, start_number: int = 1, seq_step: int = 1, payload_size: int = 200, seed: int = 0,
                payload_bytes: Optional[Sequence[Optional[int]]] = None,
                largesize: Sequence[str] = (), moof_pssh: Union[bool, str] = False,
                with_mehd: bool = True, traf_order: str = "trun_first",
@@ -169,6 +169,8 @@ def make_track(kind: str = "video", timescale: Optional[int] = None,
     timescale            media timescale (default 240 video / 44100 audio)
     durations            per-segment durations in ticks (sum of the segment's sample durations)
     samples_per_segment  int or per-segment list
+    start_number/seq_step  mfhd sequence numbers start_number, start_number+seq_step, … (a step of 2 or 3 is what
+                         de-multiplexing a multi-track fragmented file leaves behind)
     first_decode_time    tfdt of the first segment (later ones accumulate the durations)
     with_tfdt            write a tfdt in every traf; tfdt_version 0/1 (None: 1 iff the value needs 64 bit)
     with_styp/with_sidx  leading styp / sidx box per media segment
@@ -365,7 +367,7 @@ def make_track(kind: str = "video", timescale: Optional[int] = None,
             else:
                 parts.append(trun_box(data_offset))
             traf = box("traf", *parts)
-            mfhd = full("mfhd", 0, 0, u32(start_number + k))
+            mfhd = full("mfhd", 0, 0, u32(start_number + k * seq_step))
             pssh = b""
             if moof_pssh:
                 pssh = full("pssh", 1, 0, bytes.fromhex("1077efecc0b24d02ace33c1e52e2fb4b"), u32(1), kid, u32(0))
